@@ -70,10 +70,11 @@ var zzPrefixes = []string{
 
 // zzTemplate returns a concrete prefix followed by a few arbitrary bytes.
 func zzTemplate() []byte {
-	p := zzPrefixes[zz.Choice(len(zzPrefixes))]
+	pi := zz.Choice(len(zzPrefixes))
+	p := zzPrefixes[pi]
 	k := 2
-	if zz.Tier() == 1 {
-		k = 3
+	if zz.Tier() == 1 && (pi == 0 || pi == 5 || pi == 8 || pi == 10) {
+		k = 3 // (three arbitrary bytes after the BOM, an escape start, an exponent start and a dot)
 	}
 	n := zz.IntRange(0, k)
 	return append([]byte(p), zz.Bytes(n)...)
